@@ -63,6 +63,7 @@ Inductive wop :=
 | Remove (id : nat)
 | MapPin (name : nat) (x : spin)
 | RaiseAll
+| Prune (empties : list nat)   (* Solver.prune(); [empties]: the structures holding an empty model *)
 | SolveOp.
 
 (* the auto-raised name of a pin (maps_all_pins uses the pin itself as its external name) *)
@@ -107,6 +108,37 @@ Fixpoint for_neighbours (f : sstruct -> nat -> result sstruct) (target : nat)
 
 Definition conn_touches (id : nat) (c : spin * spin) : bool :=
   Nat.eqb (fst (fst c)) id || Nat.eqb (fst (snd c)) id.
+
+(* Solver.remove_structure *)
+Definition remove_op (s : wstate) (id : nat) : wstate * option err :=
+      if negb (nmem id (w_structs s)) then (s, Some ENotPresent) else
+      let s0 := {| w_structs := nremove1 id (w_structs s); w_store := w_store s; w_conns := w_conns s;
+                   w_clist := w_clist s; w_free := w_free s; w_map := w_map s |} in
+      match for_neighbours remove_connections id (s_to (getst s0 id)) s0 with
+      | (s1, Some e) => (s1, Some e)
+      | (s1, None) =>
+          let me := getst s1 id in
+          let s2 := setst s1 id {| s_pins := s_pins me; s_conn := []; s_to := [] |} in
+          let hit := filter (conn_touches id) (w_conns s2) in
+          ({| w_structs := w_structs s2; w_store := w_store s2;
+              w_conns := filter (fun c => negb (conn_touches id c)) (w_conns s2);
+              w_clist := fold_left (fun l c => remove1 (fst c) (remove1 (snd c) l)) hit (w_clist s2);
+              w_free := filter (fun p => negb (Nat.eqb (fst p) id)) (w_free s2);
+              w_map := filter (fun e => negb (Nat.eqb (fst (snd e)) id)) (w_map s2) |}, None)
+      end.
+
+(* Solver.prune() on a flat solver: every structure holding an empty model is removed, visiting a COPY of
+   the structure list in declaration order *)
+Fixpoint prune_ops (ids : list nat) (empties : list nat) (s : wstate) : wstate * option err :=
+  match ids with
+  | [] => (s, None)
+  | id :: r => if nmem id empties then
+                 match remove_op s id with
+                 | (s', None) => prune_ops r empties s'
+                 | (s', Some e) => (s', Some e)
+                 end
+               else prune_ops r empties s
+  end.
 
 Definition step (s : wstate) (o : wop) : wstate * option err :=
   match o with
@@ -159,22 +191,8 @@ Definition step (s : wstate) (o : wop) : wstate * option err :=
                                (w_free s2 ++ flat_map (fun c => [snd c; fst c]) hit);
               w_map := filter (fun e => negb (Nat.eqb (fst (snd e)) id)) (w_map s2) |}, None)
       end
-  | Remove id =>
-      if negb (nmem id (w_structs s)) then (s, Some ENotPresent) else
-      let s0 := {| w_structs := nremove1 id (w_structs s); w_store := w_store s; w_conns := w_conns s;
-                   w_clist := w_clist s; w_free := w_free s; w_map := w_map s |} in
-      match for_neighbours remove_connections id (s_to (getst s0 id)) s0 with
-      | (s1, Some e) => (s1, Some e)
-      | (s1, None) =>
-          let me := getst s1 id in
-          let s2 := setst s1 id {| s_pins := s_pins me; s_conn := []; s_to := [] |} in
-          let hit := filter (conn_touches id) (w_conns s2) in
-          ({| w_structs := w_structs s2; w_store := w_store s2;
-              w_conns := filter (fun c => negb (conn_touches id c)) (w_conns s2);
-              w_clist := fold_left (fun l c => remove1 (fst c) (remove1 (snd c) l)) hit (w_clist s2);
-              w_free := filter (fun p => negb (Nat.eqb (fst p) id)) (w_free s2);
-              w_map := filter (fun e => negb (Nat.eqb (fst (snd e)) id)) (w_map s2) |}, None)
-      end
+  | Remove id => remove_op s id
+  | Prune empties => prune_ops (w_structs s) empties s
   | MapPin name x =>
       ({| w_structs := w_structs s; w_store := w_store s; w_conns := w_conns s; w_clist := w_clist s;
           w_free := w_free s; w_map := dset Nat.eqb name x (w_map s) |}, None)
